@@ -104,7 +104,7 @@ def decode_project(chunks, problems):
             if w >> 6:
                 problems.append(f"SFGS has bits above the two 3-bit fields: {w:#x}")
         elif cid == b"NAME":
-            if not pl.endswith(b"\0"):
+            if b"\0" not in pl:
                 problems.append("NAME is not NUL-terminated")
             d["name"] = _cstr(pl)
         elif cid in PROJECT_U32:
@@ -718,6 +718,7 @@ class Choices:
         self.cval_keep = None              # {module index: number of CVAL chunks kept}
         self.legacy_header = False         # 1.x header subset: VERS, BPM, SPED, GVOL only
         self.smin_empty = False
+        self.stale_after_nul = None        # seed: leave non-zero garbage after the first NUL of cstrings / inside SNAM padding
         if r is not None:
             self.header_perm = r.randrange(1 << 30) if r.random() < 0.5 else None
             self.time_reps_when_zero = r.random() < 0.5
@@ -727,6 +728,7 @@ class Choices:
             self.drawn_always = r.random() < 0.5
             self.drawn_omit_ff_fr = r.random() < 0.5
             self.np_curve_always = r.random() < 0.5
+            self.stale_after_nul = r.randrange(1 << 30) if r.random() < 0.4 else None
         for k, v in kw.items():
             setattr(self, k, v)
 
@@ -736,6 +738,17 @@ class Choices:
 
 def _c(cid, payload):
     return (cid, payload)
+
+
+def _cstr_bytes(text, ch, salt=0):
+    """A cstring ends at its first NUL; a writer re-using a buffer may leave stale bytes behind it."""
+    b = text.encode(ENC) + b"\0"
+    if ch is not None and ch.stale_after_nul is not None:
+        import random as _random
+        r = _random.Random(ch.stale_after_nul + salt)
+        if r.random() < 0.6:
+            b += bytes(r.choice(b"abcXYZ 0123\xc3\xa9") for _ in range(r.randint(1, 9))) + (b"\0" if r.random() < 0.5 else b"")
+    return b
 
 
 def _p32(v):
@@ -767,7 +780,7 @@ def encode_project(ad, ch, depth=0):
         body.append((b"SFGS", _p32(ad["receive_sync_midi"] | (ad["receive_sync_other"] << 3))))
         for cid, key in ((b"BPM ", "initial_bpm"), (b"SPED", "initial_tpl"), (b"TGRD", "time_grid"), (b"TGD2", "time_grid2"), (b"GVOL", "global_volume")):
             body.append((cid, _p32(ad[key])))
-        body.append((b"NAME", ad["name"].encode(ENC) + b"\0"))
+        body.append((b"NAME", _cstr_bytes(ad["name"], ch, 1)))
         body += [(b"MSCL", _p32(ad["modules_scale"])), (b"MZOO", _p32(ad["modules_zoom"])), (b"MXOF", _pi32(ad["modules_x_offset"])),
                  (b"MYOF", _pi32(ad["modules_y_offset"])), (b"LMSK", _p32(ad["modules_layer_mask"])), (b"CURL", _p32(ad["modules_current_layer"]))]
         if ad["timeline_position"] or ch.time_reps_when_zero:
@@ -787,7 +800,7 @@ def encode_project(ad, ch, depth=0):
             else:
                 out.append((b"PDTA", q["cells"]))
                 if q["name"] is not None:
-                    out.append((b"PNME", q["name"].encode(ENC) + b"\0"))
+                    out.append((b"PNME", _cstr_bytes(q["name"], ch, 2 + len(out))))
                 out += [(b"PCHN", _p32(q["tracks"])), (b"PLIN", _p32(q["lines"])), (b"PYSZ", _p32(q["y_size"])), (b"PFLG", _p32(q["flags_PFLG"])),
                         (b"PICO", q["icon"]), (b"PFGC", bytes(q["fg_color"])), (b"PBGC", bytes(q["bg_color"])), (b"PFFF", _p32(q["flags_PFFF"])),
                         (b"PXXX", _pi32(q["x"])), (b"PYYY", _pi32(q["y"]))]
@@ -819,7 +832,14 @@ def encode_module(m, ctx, index, ch, depth):
     out = [(b"SFFF", _p32(m["flags"]))]
     name = m["name"].encode(ENC)
     assert len(name) <= 32, "caller must pass names already cut to the documented limit"
-    out.append((b"SNAM", name.ljust(32, b"\0")))
+    snam = name.ljust(32, b"\0")
+    if ch is not None and ch.stale_after_nul is not None and len(name) < 30:
+        import random as _random
+        r = _random.Random(ch.stale_after_nul + index * 7)
+        if r.random() < 0.6:
+            tail = bytes(r.choice(b"abcXYZ 0123") for _ in range(31 - len(name)))
+            snam = name + b"\0" + tail
+    out.append((b"SNAM", snam))
     if m["type"] != "Output":
         out.append((b"STYP", m["type"].encode(ENC) + b"\0"))
     out += [(b"SFIN", _pi32(m["finetune"])), (b"SREL", _pi32(m["relative_note"]))]
@@ -830,7 +850,7 @@ def encode_module(m, ctx, index, ch, depth):
         out.append((b"SVPR", _p32(m["visualization"])))
     out += [(b"SCOL", bytes(m["color"])), (b"SMII", _p32(int(m["midi_in_always"]) | (m["midi_in_channel"] << 1)))]
     if m["midi_out_name"]:
-        out.append((b"SMIN", m["midi_out_name"].encode(ENC) + b"\0"))
+        out.append((b"SMIN", _cstr_bytes(m["midi_out_name"], ch, 11 + index)))
     out += [(b"SMIC", _p32(m["midi_out_channel"])), (b"SMIB", _pi32(m["midi_out_bank"])), (b"SMIP", _pi32(m["midi_out_program"]))]
     if ctx == "project":
         links, slots = list(m["links"]["in"]), list(m["links"]["in_slots"])
@@ -931,7 +951,7 @@ def encode_payload(m, t, ch, depth):
         out.append((1, b"".join(struct.pack("<HH", a, b) for a, b in pl["mappings"]), None, None))
         out.append((2, encode_options(m, t), None, None))
         for i in sorted(pl["labels"]):
-            out.append((8 + i, pl["labels"][i].encode(ENC) + b"\0", None, None))
+            out.append((8 + i, _cstr_bytes(pl["labels"][i], ch, 100 + i), None, None))
     elif ty == "Sampler":
         rec = bytearray(400)
         struct.pack_into("<I", rec, 0, pl.get("unused1", 0))
